@@ -95,7 +95,7 @@ class ListenerModel:
         self.methods = repo.all_methods(self.cls)
         self.process_kinds = sorted(n[len("process_"):] for n in self.methods if n.startswith("process_"))
         for cb in ("enterDocumented_command", "enterCommand_invocation", "enterBracket_doccomment", "enterDocumented_module"):
-            if cb not in ci.methods:
+            if repo.find_method(self.cls, cb) is None or repo.find_method(self.cls, cb)[1] is None:
                 raise AnalysisError(f"anchor vanished: {self.cls}.{cb}")
         self.entries = attr(SELF, self.roles["entries"])
         self.defstack = attr(SELF, self.roles["defstack"])
@@ -138,11 +138,11 @@ class ListenerModel:
             st = State()
             ctx = ("sym", "ctx")
             st.facts[("in", ctx, self.consumed)] = False
-            fn0 = ci.methods["enterCommand_invocation"]
+            fn0 = self.repo.find_method(self.cls, "enterCommand_invocation")[1]
             outs = ev.run_function(fn0, {"self": SELF, func_params(fn0)[1]: ctx}, st)
         elif event == "DOC":
             dctx = ("sym", "dctx")
-            fn1 = ci.methods["enterDocumented_command"]
+            fn1 = self.repo.find_method(self.cls, "enterDocumented_command")[1]
             p1 = func_params(fn1)[1]
             outs1 = ev.run_function(fn1, {"self": SELF, p1: dctx})
             outs = []
@@ -152,23 +152,23 @@ class ListenerModel:
                 if o1.exit and o1.exit[0] == "raise":
                     outs.append(o1)
                     continue
-                fn2 = ci.methods["enterBracket_doccomment"]
+                fn2 = self.repo.find_method(self.cls, "enterBracket_doccomment")[1]
                 p2 = func_params(fn2)[1]
                 for o2 in ev.run_function(fn2, {"self": SELF, p2: doc_ctx}, o1.state):
                     if o2.exit and o2.exit[0] == "raise":
                         outs.append(o2)
                         continue
-                    fn3 = ci.methods["enterCommand_invocation"]
+                    fn3 = self.repo.find_method(self.cls, "enterCommand_invocation")[1]
                     p3 = func_params(fn3)[1]
                     outs.extend(ev.run_function(fn3, {"self": SELF, p3: cmd_ctx}, o2.state))
         elif event == "DANGLING":
-            fn2 = ci.methods["enterBracket_doccomment"]
+            fn2 = self.repo.find_method(self.cls, "enterBracket_doccomment")[1]
             st = State()
             ctx = ("sym", "ctx")
             st.facts[("in", ctx, self.consumed)] = False
             outs = ev.run_function(fn2, {"self": SELF, func_params(fn2)[1]: ctx}, st)
         elif event == "MODULE":
-            fn2 = ci.methods["enterDocumented_module"]
+            fn2 = self.repo.find_method(self.cls, "enterDocumented_module")[1]
             outs = ev.run_function(fn2, {"self": SELF, func_params(fn2)[1]: ("sym", "ctx")})
         else:
             raise ValueError(event)
